@@ -350,3 +350,107 @@ def lean_line(inv):
         return " ".join(out)
     except (KeyError, TypeError, AttributeError):
         return None
+
+
+# ------------------------------------------------------------------ inventories of earlier versions
+
+CROSS = ["old-inv-consistent", "old-inv-head", "old-inv-id", "old-inv-state", "old-inv-cdir", "old-inv-manifest-drop",
+         "old-inv-manifest-extra", "old-inv-sidecar", "old-inv-later-version", "old-inv-meta-differs", "old-inv-is-older"]
+
+
+def version_order(inv):
+    return sorted(inv["versions"], key=lambda v: int(v[1:]))
+
+
+def inventory_at(inv, vname):
+    """the inventory the object had when `vname` was its head (what a version directory's inventory.json holds);
+    None when the base does not determine one that is valid on its own"""
+    names = version_order(inv)
+    keep = names[:names.index(vname) + 1]
+    out = {k: copy.deepcopy(v) for k, v in inv.items() if k not in ("versions", "manifest", "head", "fixity")}
+    out["head"] = vname
+    out["versions"] = {v: copy.deepcopy(inv["versions"][v]) for v in keep}
+    used = {d for v in keep for d in inv["versions"][v]["state"]}
+    man = {}
+    for d, ps in inv["manifest"].items():
+        ps2 = [p for p in ps if p.split("/")[0] in keep]
+        if ps2:
+            man[d] = ps2
+    if set(man) != used:
+        return None
+    out["manifest"] = man
+    return out
+
+
+def cross_edit(rng, base, kind):
+    """-> (dict version name -> inventory value for every earlier version, dict of sidecar overrides, description) or None"""
+    inv = base.inv
+    names = version_order(inv)
+    if len(names) < 2:
+        return None
+    olds = {}
+    for v in names[:-1]:
+        o = inventory_at(inv, v)
+        if o is None:
+            return None
+        olds[v] = o
+    v = rng.choice(names[:-1])
+    o = olds[v]
+    side = {}
+    desc = "%s in %s" % (kind, v)
+    if kind == "old-inv-consistent":
+        pass
+    elif kind == "old-inv-head":
+        o["head"] = rng.choice([n for n in names if n != v])
+        if o["head"] not in o["versions"]:
+            o["versions"][o["head"]] = copy.deepcopy(inv["versions"][o["head"]])
+            return None if set(d for b in o["versions"].values() for d in b["state"]) != set(o["manifest"]) else (olds, side, desc)
+    elif kind == "old-inv-id":
+        o["id"] = o["id"] + "-other"
+    elif kind == "old-inv-state":
+        blk = o["versions"][rng.choice(sorted(o["versions"]))]
+        d = sorted(blk["state"])[0]
+        blk["state"][d] = blk["state"][d] + ["extra/path-%d.txt" % rng.randint(0, 9)]
+    elif kind == "old-inv-cdir":
+        o["contentDirectory"] = "other-dir" if o.get("contentDirectory") != "other-dir" else "content"
+        o["manifest"] = {d: [p.split("/")[0] + "/" + o["contentDirectory"] + "/" + p.split("/", 2)[2] for p in ps] for d, ps in o["manifest"].items()}
+    elif kind == "old-inv-manifest-drop":
+        multi = [d for d, ps in o["manifest"].items() if len(ps) > 1]
+        if not multi:
+            return None
+        o["manifest"][multi[0]] = o["manifest"][multi[0]][:1]
+    elif kind == "old-inv-manifest-extra":
+        d = sorted(o["manifest"])[0]
+        o["manifest"][d] = o["manifest"][d] + ["%s/%s/not-on-disk.bin" % (v, base.cdir or "content")]
+    elif kind == "old-inv-sidecar":
+        side[v] = "0" * (128 if base.alg == "sha512" else 64)
+    elif kind == "old-inv-later-version":
+        later = names[names.index(v) + 1]
+        o["versions"][later] = copy.deepcopy(inv["versions"][later])
+        if set(d for b in o["versions"].values() for d in b["state"]) != set(o["manifest"]):
+            return None
+        desc += " (a block for %s, head stays %s)" % (later, v)
+    elif kind == "old-inv-is-older":
+        # a version directory that holds the (in itself valid) inventory of the version before it: only its head is wrong;
+        # possible where the version stored no content of its own
+        cands = [n for i, n in enumerate(names[:-1]) if i >= 1 and not any(p.split("/")[0] == n for ps in inv["manifest"].values() for p in ps)]
+        if not cands:
+            return None
+        v = rng.choice(cands)
+        olds[v] = copy.deepcopy(olds[names[names.index(v) - 1]])
+        desc = "%s: %s holds the inventory of %s" % (kind, v, names[names.index(v) - 1])
+    elif kind == "old-inv-meta-differs":
+        blk = o["versions"][sorted(o["versions"])[0]]
+        blk["message"] = "another message"
+        desc += " (message of an earlier version differs from the root inventory: allowed, W011)"
+    return olds, side, desc
+
+
+def write_old_inventories(dst, olds, side, alg):
+    for v, o in olds.items():
+        d = os.path.join(dst, v)
+        if not os.path.isdir(d):
+            continue
+        b = json.dumps(o, ensure_ascii=False).encode("utf-8")
+        open(os.path.join(d, "inventory.json"), "wb").write(b)
+        open(os.path.join(d, "inventory.json." + alg), "w").write("%s  inventory.json\n" % side.get(v, hashlib.new(alg, b).hexdigest()))
